@@ -215,6 +215,11 @@ def run(tier, rep):
             "Strs": "package Strs\n\nextern \"go\" \"strings\" \"ToUpper\" to_upper(s: string) -> string\nextern \"go\" \"strings\" \"Repeat\" repeat(s: string, n: int32) -> string\n",
             "Main": "package Main\nimport Strs\n\nfn main() {\n    let _ = string_println(Strs::to_upper(\"abc\") + Strs::repeat(\"ab\", 3));\n    ()\n}\n"},
     }
+    # a long function: the core artifact nests one level per statement
+    long_lets = "\n".join(f"    let a{i} = a{i - 1} + {i % 7};" for i in range(1, 160))
+    specials["long-function"] = {
+        "Long": "package Long\n\nfn run(a0: int32) -> int32 {\n" + long_lets + "\n    a159\n}\n",
+        "Main": "package Main\nimport Long\n\nfn main() {\n    let _ = string_println(int32_to_string(Long::run(1)));\n    ()\n}\n"}
     for sname, pk in specials.items():
         proj = os.path.join(root, "special_" + sname)
         dep = [p_ for p_ in pk if p_ != "Main"][0]
